@@ -146,6 +146,8 @@ def _call(fn, seconds=OP_TIMEOUT):
         return fn(), None, False
     except OpTimeout:
         return None, None, True
+    except MemoryError:
+        raise       # per-worker memory limit: the harness reports a cap
     except Exception as e:  # noqa
         return None, (f"{type(e).__name__}: {e}\n"
                       f"{traceback.format_exc(limit=8)}"), False
